@@ -35,7 +35,9 @@ static int run_history(const struct ecimpl *im, int len, int k, int rows, const 
 	snprintf(where, sizeof where, "src=%s%d dst=%s%d", soff < 0 ? "E" : "S+", soff < 0 ? 0 : soff, doff < 0 ? "E" : "S+", doff < 0 ? 0 : doff);
 	for (int i = 0; i < nseq && i < 24; i++)
 		snprintf(hist + strlen(hist), sizeof hist - strlen(hist), "%d,", seq[i]);
-	uint8_t *tbl = g_alloc(im->gfni && im->level < 0 ? (size_t)8 * k * rows : ec_tbl_size(k, rows), G_END);
+	/* the coefficient tables have no documented alignment: every fourth length they sit at an odd address (else end-flush at a guard page) */
+	size_t tbl_bytes = im->gfni && im->level < 0 ? (size_t)8 * k * rows : ec_tbl_size(k, rows);
+	uint8_t *tbl = len % 4 == 1 ? g_alloc_off(tbl_bytes, 1 + len % 15) : g_alloc(tbl_bytes, G_END);
 	if (V_TRY()) {
 		ec_tables(im, k, rows, A, tbl);
 		V_END();
